@@ -304,6 +304,8 @@ def generate(seed, prof):
     if prof.get("pack_knob") and r.random() < prof.get("pack_p", 0.7):
         prog["knobs"]["pack_limit"] = r.randint(3, 8)
         prog["knobs"]["pack_ratio"] = r.choice((0.5, 0.7, 0.8, 0.95))
+    if r.random() < prof.get("folder_scan_p", 0.0):
+        prog["knobs"]["folder_scan_every"] = r.choice((0.5, 2.0, 5.0, 15.0))
     if prog["mode"] == "concurrent" and r.random() < prof.get("sock_buf_p", 0.12):
         # slow reader behind a small socket buffer: the server's drain() waits (up to its 2 s push timeout)
         prog["knobs"]["sock_buf"] = r.choice((128, 512, 2048))
